@@ -4,7 +4,7 @@
 \* as-built model predicts; the harness replays the disagreeing programs on the code (they must fail there too)
 \* and compares the predicted rows with the code's residual (model drift otherwise).
 CONSTANTS Family = "index" Tier = "quick"
-  DivMapped = TRUE SlicesRangeChecked = TRUE LoopIndexRangeChecked = TRUE PartialSubscriptIsRow = TRUE CallFirstOutput = TRUE StepRangeParsed = TRUE RangeStopExact = TRUE IfStmtSequential = FALSE ExploreOptions = FALSE
+  DivMapped = TRUE SlicesRangeChecked = TRUE LoopIndexRangeChecked = TRUE PartialSubscriptIsRow = TRUE CallFirstOutput = TRUE StepRangeParsed = TRUE RangeStopExact = TRUE IfStmtSequential = TRUE ExploreOptions = FALSE
 INIT Init
 NEXT Next
 INVARIANT WellTyped
